@@ -153,6 +153,40 @@ def _py7zr_read(job):
             p.seek(0)
             got[n] = p.read()
         out["bytes"] = got
+    # extraction into a directory: the post-pass (times, modes) runs only here
+    import tempfile, shutil, stat as st_
+    tmp = tempfile.mkdtemp(prefix="verif_c06x_")
+    try:
+        arc = os.path.join(tmp, "a.7z")
+        with open(arc, "wb") as f:
+            f.write(data)
+        dest = os.path.join(tmp, "out")
+        try:
+            with py7zr.SevenZipFile(arc, "r", **kw) as z:
+                z.extractall(dest)
+            tree = {}
+            for dp, dn, fn in os.walk(dest):
+                for n in dn + fn:
+                    pth = os.path.join(dp, n)
+                    s_ = os.lstat(pth)
+                    rel = os.path.relpath(pth, dest)
+                    if st_.S_ISLNK(s_.st_mode):
+                        tree[rel] = ("link", os.readlink(pth), None)
+                    elif st_.S_ISDIR(s_.st_mode):
+                        tree[rel] = ("dir", None, s_.st_mtime_ns)
+                    else:
+                        tree[rel] = ("file", open(pth, "rb").read(), s_.st_mtime_ns)
+            out["tree"] = tree
+        except Exception as e:  # noqa
+            out["tree_error"] = "%s: %s" % (type(e).__name__, str(e)[:200])
+    finally:
+        for dp, dn, fn in os.walk(tmp):
+            for n in dn:
+                try:
+                    os.chmod(os.path.join(dp, n), 0o700)
+                except OSError:
+                    pass
+        shutil.rmtree(tmp, ignore_errors=True)
     return out
 
 
@@ -186,6 +220,25 @@ def compare(members, got):
             diffs.append("mtime %r: %s != %s" % (nm, me[4], m["mtime"]))
         if me[5] != m["attr"]:
             diffs.append("attr %r: %s != %s" % (nm, me[5], m["attr"]))
+    # extraction into a directory (skipped when a link target is absolute or climbs: refusing those is policy, C03)
+    risky = any(m["kind"] == "symlink" and (m["data"].startswith(b"/") or b".." in m["data"].split(b"/")) for m in members)
+    dup = len(set(want_names)) != len(want_names) or any(w is None for w in want_names)
+    if not risky and not dup:
+        if "tree_error" in got:
+            diffs.append("extractall(path) raised " + got["tree_error"])
+        elif "tree" in got:
+            tree = got["tree"]
+            for m in members:
+                key = os.path.normpath(m["name"].replace("\\", "/").lstrip("/"))
+                ent = tree.get(key)
+                if m["kind"] == "file" and (m["attr"] is None or not (m["attr"] & 0x400)):
+                    if ent is None or ent[0] != "file" or ent[1] != m["data"]:
+                        diffs.append("tree: file %r not extracted with its bytes (%s)" % (m["name"], None if ent is None else ent[0]))
+                    elif m["mtime"] is not None and abs(ent[2] - (m["mtime"] - 116444736000000000) * 100) > 10000:
+                        diffs.append("tree: mtime of %r off by %d ns" % (m["name"], ent[2] - (m["mtime"] - 116444736000000000) * 100))
+                elif m["kind"] == "dir" and m["attr"] is not None:
+                    if ent is None or ent[0] != "dir":
+                        diffs.append("tree: directory %r not created" % m["name"])
     return diffs
 
 
